@@ -676,6 +676,28 @@ struct Driver {
         if (mode < 6) {
             std::vector<int> fr = free_hfs();
             std::vector<int> tri; for (int h : fr) if (hf_hes(h).size() == 3) tri.push_back(h);
+            if (kind == "poly" && tri.size() >= 2 && rng.chance(1, 5)) {
+                // wedge: one cell over TWO adjacent free triangles (cells sharing two faces; the neighbour then occurs
+                // twice, possibly non-consecutively, in the other cell's halfface list)
+                int h1 = rng.pick(tri);
+                std::vector<int> w = hf_verts(h1);
+                for (int h2 : tri) {
+                    if (h2 == h1 || (h2 ^ 1) == h1) continue;
+                    std::vector<int> u = hf_verts(h2);
+                    for (int r = 0; r < 3; ++r) {
+                        // h2 = (w1, w0, x) for some rotation of h1 = (w0, w1, w2)
+                        for (int q = 0; q < 3; ++q) {
+                            int w0 = w[q], w1 = w[(q + 1) % 3], w2 = w[(q + 2) % 3];
+                            if (u[r] == w1 && u[(r + 1) % 3] == w0 && u[(r + 2) % 3] != w2) {
+                                int x = u[(r + 2) % 3];
+                                int e = fresh_vertex();
+                                add_polyhedron({{w0, w1, w2}, {w1, w0, x}, {w2, w1, e}, {w0, w2, e}, {x, w0, e}, {w1, x, e}}, chk);
+                                return;
+                            }
+                        }
+                    }
+                }
+            }
             if (!tri.empty() && rng.chance(4, 5)) {
                 int hf = rng.pick(tri);
                 std::vector<int> w = hf_verts(hf);
@@ -704,8 +726,33 @@ struct Driver {
             return;
         }
         // dangling stuff: isolated vertex, dangling edge, dangling face, duplicate edge
-        int what = (int)rng.below(4);
+        int what = (int)rng.below(5);
         if (what == 0) { fresh_vertex(); return; }
+        if (what == 4) {
+            // junk cell: an unchecked add_cell on 2..5 free halffaces, preferably around one edge (a cell that is not
+            // a closed surface and may use a halfedge twice: the configuration behind F25)
+            if (kind != "poly") return;
+            std::vector<int> fr = free_hfs();
+            if (fr.size() < 2) return;
+            std::vector<long> hfs;
+            int seed_hf = rng.pick(fr);
+            std::vector<int> she = hf_hes(seed_hf);
+            int he = she.empty() ? -1 : rng.pick(she);
+            hfs.push_back(seed_hf);
+            rng.shuffle(fr);
+            size_t want = 2 + rng.below(4);
+            for (int h : fr) {
+                if (hfs.size() >= want) break;
+                if (std::find(hfs.begin(), hfs.end(), (long)h) != hfs.end()) continue;
+                std::vector<int> hh = hf_hes(h);
+                bool around = he >= 0 && (std::find(hh.begin(), hh.end(), he) != hh.end() || std::find(hh.begin(), hh.end(), he ^ 1) != hh.end());
+                if (around || rng.chance(1, 4)) hfs.push_back(h);
+            }
+            if (hfs.size() < 2) return;
+            Op op; op.name = "add_cell"; op.a.push_back(0); op.a.push_back((long)hfs.size()); for (long h : hfs) op.a.push_back(h);
+            exec(op);
+            return;
+        }
         if (lv.size() >= 2) {
             int a = rng.pick(lv), b = rng.pick(lv);
             if (a == b) return;
